@@ -8,6 +8,10 @@ import VerifModel.Spec.Diagram
         in<k>  key=v1|v2|…;key=…          valid-case vectors per slice, as fetched by Data.get_scores
       reply  <axes>:<kind>:<label>:<x>:<y>[:<w>];…     or UNMODELLED
     bin <edges> <x> <y>                    util.bin  ->  xx:yy:counts
+    fillpoly <xs> <lower> <upper>          util.fill: the polygon's vertices  ->  X:Y   (- : nothing drawn)
+    diagseq <op> // <op> // …              diagrams drawn one after the other from one dataset: the model is a pure
+                                           function of the dataset, so each <op> (a `diag …` line) is answered as if it
+                                           were alone  ->  reply@@reply@@…
     spec_bincount <conv> <edges> <x>       Spec: number of bins of the convention that contain x
 -/
 namespace VerifModel.Driver.Diagram
@@ -178,7 +182,15 @@ def toRat? : XR → Option Rat
   | .fin q => some q
   | _ => none
 
-def handle (args : List String) : Option String :=
+/-- split a token list at the separator token -/
+def splitAt (sep : String) : List String → List (List String)
+  | [] => [[]]
+  | t :: rest =>
+    match splitAt sep rest with
+    | cur :: more => if t == sep then [] :: cur :: more else (t :: cur) :: more
+    | [] => [[t]]
+
+def handle1 (args : List String) : Option String :=
   match args with
   | ["diag", _, "unmodelled"] => some "UNMODELLED"
   | "diag" :: name :: opts :: ins => do
@@ -191,11 +203,20 @@ def handle (args : List String) : Option String :=
       let (e, x, y) := (← parseVec? edges, ← parseVec? x, ← parseVec? y)
       let r := utilBin e x y
       some s!"{showVec r.1}:{showVec r.2.1}:{showNats r.2.2}"
+  | ["fillpoly", xs, lower, upper] => do
+      let (x, lo, up) := (← parseVec? xs, ← parseVec? lower, ← parseVec? upper)
+      let p := fillPolygon x lo up
+      some (if p.isEmpty then "-" else s!"{showVec (p.map (·.1))}:{showVec (p.map (·.2))}")
   | ["spec_bincount", conv, edges, x] => do
       let (e, x) := (← (← parseVec? edges).mapM toRat?, ← toRat? (← parseXR? x))
       let c ← if conv == "ho" then some Spec.Diagram.Conv.ho else if conv == "oc" then some .oc
               else if conv == "hist" then some .hist else none
       some (toString (Spec.Diagram.binCount c e x))
   | _ => none
+
+def handle (args : List String) : Option String :=
+  match args with
+  | "diagseq" :: rest => some ("@@".intercalate ((splitAt "//" rest).map fun a => (handle1 a).getD "ERR bad-op"))
+  | _ => handle1 args
 
 end VerifModel.Driver.Diagram
